@@ -14,9 +14,12 @@ import registry
 # e2e_stream  (C01, C02, C03, C12)
 # case: [seed, drop_pm, dup_pm, corrupt_pm, jitter_ms, max_udp, n_bidi, bytes, stream_window,
 #        conn_window, max_streams, chunk, read_size, blackhole_after_ms, blackhole_len_ms (0 = forever),
-#        n_uni, delay_ms, idle_ms, fault_until_ms, close_at_end, finish_mode]
+#        n_uni, delay_ms, idle_ms, fault_until_ms, close_at_end, finish_mode,
+#        write_modes_mask (bit m: 0 send, 1 send_vectored, 2 tokio write_vectored, 3 write_all),
+#        read_modes_mask (0 receive, 1 read, 2 receive_vectored, 3 tokio read, 4 slow reader then receive_vectored),
+#        max_send_buffer_size (0 = default)]
 # ---------------------------------------------------------------------------------------------
-STREAM_LEN = 21
+STREAM_LEN = 24
 
 
 def _stream_case(rng, profile):
@@ -70,8 +73,11 @@ def _stream_case(rng, profile):
         # finish() followed by flush(): the stream is never finalized by the implementation
         # (finding reported by the e2e harness), harmless only while stream credit is not needed
         finish_mode = 1
+    wmask = rng.choice([0, 0, 15, 15, 1, 2, 4, 8, 6])
+    rmask = rng.choice([0, 0, 31, 31, 1, 2, 4, 8, 16, 20])
+    send_buf = rng.choice([0, 0, 0, 1000, 3000, 20000])
     return [seed, drop, dup, corrupt, jitter, max_udp, n_bidi, total, sw, cw, ms, chunk, read,
-            bh_after, bh_len, n_uni, delay, idle, fault_until, close_at_end, finish_mode]
+            bh_after, bh_len, n_uni, delay, idle, fault_until, close_at_end, finish_mode, wmask, rmask, send_buf]
 
 
 def gen_stream(rng):
@@ -82,25 +88,30 @@ def gen_stream(rng):
 def fixed_stream(tier):
     return [
         # plain transfer, one of each stream type
-        [1, 0, 0, 0, 0, 1500, 2, 20000, 65536, 131072, 10, 1000, 500, 0, 0, 1, 20, 10000, 0, 1, 0],
+        [1, 0, 0, 0, 0, 1500, 2, 20000, 65536, 131072, 10, 1000, 500, 0, 0, 1, 20, 10000, 0, 1, 0, 0, 0, 0],
         # stream-count credit of 1 with several streams
-        [4, 0, 0, 0, 0, 1500, 3, 100, 100000, 300000, 1, 700, 100, 0, 0, 2, 10, 5000, 0, 1, 0],
+        [4, 0, 0, 0, 0, 1500, 3, 100, 100000, 300000, 1, 700, 100, 0, 0, 2, 10, 5000, 0, 1, 0, 0, 0, 0],
         # one byte windows
-        [5, 0, 0, 0, 0, 1500, 1, 150, 1, 1, 1, 50, 10, 0, 0, 1, 5, 30000, 0, 0, 0],
+        [5, 0, 0, 0, 0, 1500, 1, 150, 1, 1, 1, 50, 10, 0, 0, 1, 5, 30000, 0, 0, 0, 0, 0, 0],
         # blackhole from the first millisecond / mid handshake / mid transfer
-        [6, 0, 0, 0, 0, 1500, 2, 50000, 65536, 131072, 10, 1000, 500, 1, 0, 1, 20, 5000, 0, 1, 0],
-        [7, 0, 0, 0, 0, 1500, 2, 50000, 65536, 131072, 10, 1000, 500, 30, 0, 1, 20, 5000, 0, 1, 0],
-        [8, 0, 0, 0, 0, 1500, 2, 200000, 65536, 131072, 10, 1000, 500, 150, 0, 1, 20, 3000, 0, 1, 0],
+        [6, 0, 0, 0, 0, 1500, 2, 50000, 65536, 131072, 10, 1000, 500, 1, 0, 1, 20, 5000, 0, 1, 0, 0, 0, 0],
+        [7, 0, 0, 0, 0, 1500, 2, 50000, 65536, 131072, 10, 1000, 500, 30, 0, 1, 20, 5000, 0, 1, 0, 0, 0, 0],
+        [8, 0, 0, 0, 0, 1500, 2, 200000, 65536, 131072, 10, 1000, 500, 150, 0, 1, 20, 3000, 0, 1, 0, 0, 0, 0],
         # heavy faults for 30 s
-        [3, 100, 100, 50, 100, 1400, 8, 100000, 20000, 50000, 3, 5000, 0, 0, 0, 3, 50, 30000, 30000, 1, 0],
+        [3, 100, 100, 50, 100, 1400, 8, 100000, 20000, 50000, 3, 5000, 0, 0, 0, 3, 50, 30000, 30000, 1, 0, 0, 0, 0],
         # known finding finish_flush_stream_never_finalized: a send half ended by finish() and then
         # flush().await is never finalized, so stream credit is never returned
-        [4, 0, 0, 0, 0, 1500, 3, 100, 100000, 300000, 1, 700, 100, 0, 0, 2, 10, 5000, 0, 1, 1],
-        [9, 30, 0, 0, 0, 1500, 4, 5000, 65536, 131072, 2, 1000, 0, 0, 0, 0, 20, 6000, 3000, 0, 1],
-        [10, 0, 0, 0, 0, 1350, 2, 20000, 65536, 131072, 1, 5000, 500, 0, 0, 3, 5, 4000, 0, 1, 1],
+        [4, 0, 0, 0, 0, 1500, 3, 100, 100000, 300000, 1, 700, 100, 0, 0, 2, 10, 5000, 0, 1, 1, 0, 0, 0],
+        [9, 30, 0, 0, 0, 1500, 4, 5000, 65536, 131072, 2, 1000, 0, 0, 0, 0, 20, 6000, 3000, 0, 1, 0, 0, 0],
+        [10, 0, 0, 0, 0, 1350, 2, 20000, 65536, 131072, 1, 5000, 500, 0, 0, 3, 5, 4000, 0, 1, 1, 0, 0, 0],
         # known finding both_windows_blocked_state_masks_stream_credit
-        [273259354617794, 0, 0, 0, 0, 1500, 1, 150, 1, 50, 3, 5000, 4096, 0, 0, 0, 10, 30000, 0, 1, 0],
-        [207524318816640, 0, 0, 0, 0, 9000, 4, 15000, 100, 3000, 3, 100, 0, 0, 0, 1, 100, 30000, 0, 0, 0],
+        [273259354617794, 0, 0, 0, 0, 1500, 1, 150, 1, 50, 3, 5000, 4096, 0, 0, 0, 10, 30000, 0, 1, 0, 0, 0, 0],
+        [207524318816640, 0, 0, 0, 0, 9000, 4, 15000, 100, 3000, 3, 100, 0, 0, 0, 1, 100, 30000, 0, 0, 0, 0, 0, 0],
+        # application API glue: vectored writes under send-buffer backpressure, vectored / slow readers
+        [11, 0, 0, 0, 0, 1500, 2, 60000, 200000, 400000, 10, 5000, 500, 0, 0, 1, 10, 30000, 0, 1, 0, 4, 31, 2000],
+        [12, 0, 0, 0, 0, 1500, 3, 40000, 200000, 400000, 10, 3000, 0, 0, 0, 0, 20, 30000, 0, 1, 0, 15, 16, 3000],
+        [13, 20, 0, 0, 10, 1500, 2, 100000, 1048576, 2097152, 10, 1200, 77, 0, 0, 2, 5, 30000, 5000, 0, 0, 6, 20, 1000],
+        [14, 0, 0, 0, 0, 1500, 4, 30000, 1048576, 2097152, 10, 40000, 13, 0, 0, 0, 50, 30000, 0, 1, 0, 4, 4, 0],
     ]
 
 
@@ -108,7 +119,7 @@ def valid_stream(c):
     return (len(c) == STREAM_LEN and all(v >= 0 for v in c) and c[5] >= 1200 and c[6] <= 8 and c[15] <= 3
             and c[7] <= 200000 and c[1] <= 150 and c[17] >= 2000
             and (c[14] == 0 or c[14] <= 3000) and (c[20] == 0 or c[10] >= c[6] + c[15])
-            and (c[18] <= 100000) and c[7] <= 150 * min(c[8], c[9]) + 1)
+            and (c[18] <= 100000) and c[7] <= 150 * min(c[8], c[9]) + 1 and c[21] <= 15 and c[22] <= 31)
 
 
 def nontrivial_stream(case, out):
